@@ -28,6 +28,17 @@ COL = "ragc_common::collection::CollectionV3::"
 def _arms(f, ex, var):
     """definitions of `var` that depend on the predictor lookup, each with its last guards"""
     out = []
+    if var is None:
+        # the coded id is the local with several definitions, one of which is a zigzag transform of the id
+        best = None
+        for l, n in f.local_names().items():
+            ds = [d for d in ex.defs.get(l, []) if d[0] != "partial"]
+            if len(ds) < 3:
+                continue
+            vs = [fmt(strip_tags(ex.rvalue(d[3]) if d[0] == "rv" else ex.call(d[3]))) for d in ds]
+            if any("collection::zigzag_" in v for v in vs) and (best is None or len(ds) > best[0]):
+                best = (len(ds), n)
+        var = best[1] if best else None
     for l, n in f.local_names().items():
         if n != var:
             continue
@@ -36,11 +47,17 @@ def _arms(f, ex, var):
                 continue
             v = ex.rvalue(d[3]) if d[0] == "rv" else ex.call(d[3])
             conds = [(fmt(strip_tags(c[0])), cond_bool(c[1], c[2])) for c in dominating_conds(f, d[1], ex) if cond_bool(c[1], c[2]) is not None]
-            conds = [c for c in conds if "get_in_group_id" in c[0] or "in_group_id" in c[0] or "v_det[2]" in c[0]]
+            conds = [c for c in conds if "get_in_group_id" in c[0] or "in_group_id" in c[0] or re.search(r"\w+\[2\]", c[0])]
             if not conds:
                 continue
             out.append((fmt(strip_tags(v)), conds))
     return out
+
+
+def _single_value(f, ex, name):
+    from mirutil import local_updates
+    vs = [e for nm, b, e, er in local_updates(f, ex) if nm == name]
+    return vs[0] if len(vs) == 1 else None
 
 
 def run(F, rep):
@@ -76,8 +93,8 @@ def run(F, rep):
     def norm_r(s):
         s = s.replace(rgroup, "GROUP").replace("CollectionV3::get_in_group_id(self, GROUP)", "PREV")
         s = s.replace(rcur, "CUR")
-        s = re.sub(r"index\(v_det\[2\], \w+\)", "E", s)
-        s = re.sub(r"index\(v_det\[3\], \w+\)", "ELEN", s)
+        s = re.sub(r"index\(\w+\[2\], \w+\)", "E", s)
+        s = re.sub(r"index\(\w+\[3\], \w+\)", "ELEN", s)
         return s
     wg = sorted((norm_w(c), v) for c, v in sw[3])
     rg = sorted((norm_r(c), v) for c, v in sr[3])
@@ -87,8 +104,8 @@ def run(F, rep):
     rep.ob("C03-PRED", "the predictor is updated with (group id, current id) on both sides", [norm_w(a) for a in sw[2]] == ["GROUP", "CUR"] and [norm_r(a) for a in sr[2]] == ["GROUP", "CUR"],
            detail="writer %s reader %s" % ([norm_w(a) for a in sw[2]], [norm_r(a) for a in sr[2]]), site=site_of(de, sr[1]), key="C03-PRED | update arguments")
     # four-way selection
-    wa = [(norm_w(v), [(norm_w(c), t) for c, t in cs]) for v, cs in _arms(ser, exs, "e_in_group_id")]
-    ra = [(norm_r(v), [(norm_r(c), t) for c, t in cs]) for v, cs in _arms(de, exd, "c_in_group_id")]
+    wa = [(norm_w(v), [(norm_w(c), t) for c, t in cs]) for v, cs in _arms(ser, exs, None)]
+    ra = [(norm_r(v), [(norm_r(c), t) for c, t in cs]) for v, cs in _arms(de, exd, None)]
     rep.stat("encoder_arms", ["%s  if %s" % (v, cs[-1:]) for v, cs in wa])
     rep.stat("decoder_arms", ["%s  if %s" % (v, cs[-1:]) for v, cs in ra])
 
@@ -130,7 +147,7 @@ def run(F, rep):
     pw = [fmt(strip_tags(exs.operand(t["args"][1]))) for _, t in ser.calls() if not t.get("indirect") and t["callee"].endswith("collection::zigzag_encode") and
           "raw_length" in fmt(exs.operand(t["args"][0]))]
     pr = [fmt(strip_tags(exd.operand(t["args"][1]))) for _, t in de.calls() if not t.get("indirect") and t["callee"].endswith("collection::zigzag_decode") and
-          "v_det[3]" in fmt(exd.operand(t["args"][0]))]
+          re.search(r"\w+\[3\]", fmt(exd.operand(t["args"][0])))]
     rep.ob("C03-PRED", "raw lengths are predicted from the same expression on both sides (segment_size + kmer_length)",
            pw == pr and pw in (["Add(self.segment_size, self.kmer_length)"], ["Add(self.kmer_length, self.segment_size)"]), detail="encoder %s decoder %s" % (pw, pr),
            key="C03-PRED | raw length predictor")
@@ -174,8 +191,9 @@ def run(F, rep):
         rep.ob("C03-NAME", "delta-coded names end with a 0 byte that the decoder searches for", term_w and term_r, key="C03-NAME | terminator")
         dw = [fmt(strip_tags(exsn.operand(b["term"]["discr"]))) for b in sn.blocks if b["term"]["k"] == "switch" and not b["term"]["sp"].get("exp")]
         dr = [fmt(strip_tags(exdd.operand(b["term"]["discr"]))) for b in dn.blocks if b["term"]["k"] == "switch" and not b["term"]["sp"].get("exp")]
-        okw = any(re.fullmatch(r"Ne\(Vec::len\(.*split.*\), Vec::len\(prev_split\)\)|Ne\(Vec::len\(prev_split\), Vec::len\(.*\)\)", x) for x in dw)
-        okr = any(re.fullmatch(r"Ne\(Vec::len\(.*\), Vec::len\(prev_split\)\)|Ne\(Vec::len\(prev_split\), Vec::len\(.*\)\)", x) for x in dr)
+        PD = r"Ne\(Vec::len\(.*split.*\), Vec::len\(\w+\)\)|Ne\(Vec::len\(\w+\), Vec::len\(.*split.*\)\)|Ne\(Vec::len\(\w+\), Vec::len\(\w+\)\)"
+        okw = any(re.fullmatch(PD, x) for x in dw)
+        okr = any(re.fullmatch(PD, x) for x in dr)
         rep.ob("C03-NAME", "plain-vs-delta decision is `field count differs from the previous name` on both sides", okw and okr,
                detail="writer tests %s; reader tests %s" % ([x for x in dw if "len" in x][:3], [x for x in dr if "len" in x][:3]), key="C03-NAME | plain vs delta")
 
@@ -183,8 +201,16 @@ def run(F, rep):
     if enc:
         exe2 = Exprs(enc)
         defs = []
+        # the run counter: the local that is incremented by one and also set to small constants
+        from mirutil import local_updates
+        ups = local_updates(enc, exe2)
+        cands = sorted({nm for nm, bi, e, er in ups if er == ("bin", "Add", ("const", 1), ("self",))} &
+                       {nm for nm, bi, e, er in ups if er == ("const", 0)})
+        cnt = cands[0] if len(cands) == 1 else None
+        rep.ob("C03-RUN", "the run-length encoder has one run counter", cnt is not None, detail=str(cands), key="C03-RUN | encode_split | counter")
+        CN = re.escape(cnt or "?")
         for l, n in enc.local_names().items():
-            if n != "cnt":
+            if n != cnt:
                 continue
             for d in exe2.defs.get(l, []):
                 if d[0] != "rv":
@@ -194,10 +220,10 @@ def run(F, rep):
                 defs.append((v, conds))
         def under(conds, pat, truth):
             return any(re.search(pat, c) and v is truth for c, v in conds)
-        EQ = r"^Eq\((?!.*cnt).*\[.*\].*, .*\[.*\].*\)$"      # comparison of two indexed bytes (current vs previous name)
+        EQ = r"^Eq\((?!.*\b%s\b).*\[.*\].*, .*\[.*\].*\)$" % CN      # comparison of two indexed bytes (current vs previous name)
         eq_defs = [(v, cs) for v, cs in defs if under(cs, EQ, True)]
         ne_defs = [(v, cs) for v, cs in defs if under(cs, EQ, False)]
-        ok_eq = bool(eq_defs) and all(v in ("Add(1, cnt)", "Add(cnt, 1)") or (v == "1" and under(cs, r"^Eq\(\d+, cnt\)$|^Eq\(cnt, \d+\)$", True)) for v, cs in eq_defs) and \
+        ok_eq = bool(eq_defs) and all(v in ("Add(1, %s)" % cnt, "Add(%s, 1)" % cnt) or (v == "1" and under(cs, r"^Eq\(\d+, %s\)$|^Eq\(%s, \d+\)$" % (CN, CN), True)) for v, cs in eq_defs) and \
             any(v == "1" for v, _ in eq_defs)
         ok_ne = all(v == "0" for v, _ in ne_defs)
         rep.ob("C03-RUN", "run-length encoder counts every matching position exactly once (cnt += 1, or cnt = 1 right after flushing a full run; cnt = 0 after a mismatch)",
@@ -307,8 +333,17 @@ def run(F, rep):
             if not t.get("indirect") and t["callee"].endswith("store_contig_batch"):
                 a = fmt(strip_tags(ex.operand(t["args"][3])))
                 frm = fmt(strip_tags(ex.operand(t["args"][2])))
-                ok = re.search(r"min\(Add\(50, i\), (num_samples|CollectionV3::get_no_samples\(.*\))\)", a) is not None and frm == "i"
-                # and the loop continues from batch_end
+                fe = strip_tags(ex.operand(t["args"][2]))
+                te = strip_tags(ex.operand(t["args"][3]))
+                ok = False
+                if isinstance(fe, tuple) and fe[0] == "var":
+                    I = fe[1]
+                    ok = re.fullmatch(r"(\w+::)*min\(Add\(50, %s\), (\w+|CollectionV3::get_no_samples\(.*\))\)" % re.escape(I), a) is not None
+                    # and the loop continues from the end of the batch: i starts at 0 and is only ever set to that end
+                    from mirutil import local_updates
+                    ups = [e for nm, b2, e, er in local_updates(fin, ex) if nm == I]
+                    ends = [e for e in ups if e != ("const", 0) and "next(" not in fmt(e)]     # (a for-loop variable of the same name is another local)
+                    ok = ok and ("const", 0) in ups and bool(ends) and all(e == te or (e[0] == "var" and _single_value(fin, ex, e[1]) == te) for e in ends)
         rep.ob("C03-BATCH", "the writer stores metadata in consecutive batches [i, min(i+50, n))", ok, key="C03-BATCH | writer batches")
     nld = 0
     for f in F.funcs.values():
